@@ -661,6 +661,13 @@ next:
 			for _, queries := range p.enclosingAtMedia {
 				if css_ast.MediaQueriesEqual(r.Queries, queries, nil) {
 					mangledRules = append(mangledRules, r.Rules...)
+
+					// The rule before this one is no longer adjacent to the rule after it
+					for _, inner := range r.Rules {
+						if _, ok := inner.Data.(*css_ast.RComment); !ok {
+							prevNonComment = inner.Data
+						}
+					}
 					continue next
 				}
 			}
